@@ -175,9 +175,18 @@ Section Units.
   Definition add_units_input (xs : list K) (t : transform) (f : frame) : list value :=
     if uses_quantity t then attach xs (funit f) else map Num xs.
 
+  (* r.to_value(unit) for quantities, bare numbers pass (a user-supplied inverse need not carry units although the forward
+     transform does); zip semantics *)
+  Fixpoint strip_values (units : list unit) (args : list value) : ures (list K) :=
+    match args, units with
+    | Qty x u0 :: r, u :: us => udo y <- to_value (Qty x u0) u; udo ys <- strip_values us r; UOk (y :: ys)
+    | Num x :: r, _ :: us => udo ys <- strip_values us r; UOk (x :: ys)
+    | _, _ => UOk []
+    end.
+
   (* note: the code tests forward_transform.uses_quantity in both directions *)
   Definition remove_quantity_output (w : wcs) (r : list value) (f : frame) : ures (list K) :=
-    if uses_quantity (fwd w) then get_values (funit f) r else all_num r.
+    if uses_quantity (fwd w) then strip_values (funit f) r else all_num r.
 
   Definition call (w : wcs) (args : list value) : ures (list value) := eval (fwd w) args.
 
@@ -237,8 +246,16 @@ Section Units.
     match xs, from, to with x :: r, a :: fs, b :: ts => convert x a b :: conv_list r fs ts | _, _, _ => [] end.
 
   Definition free_transform (t : transform) (fi fo : list unit) : transform :=
-    {| uses_quantity := false; tin := []; tout := [];
-       core := fun xs => conv_list (core t (conv_list xs fi (tin t))) (tout t) fo |}.
+    if uses_quantity t then
+      {| uses_quantity := false; tin := []; tout := [];
+         core := fun xs => conv_list (core t (conv_list xs fi (tin t))) (tout t) fo |}
+    else t.        (* already works on bare numbers (in frame units) *)
+
+
+  Lemma free_transform_on t fi fo : uses_quantity t = true ->
+    free_transform t fi fo = {| uses_quantity := false; tin := []; tout := [];
+                                core := fun xs => conv_list (core t (conv_list xs fi (tin t))) (tout t) fo |}.
+  Proof. intro H. unfold free_transform. now rewrite H. Qed.
 
   Definition twin (w : wcs) : wcs :=
     {| fwd := free_transform (fwd w) (funit (fin w)) (funit (fout w));
@@ -274,6 +291,13 @@ Section Units.
     apply andb_true_iff in H. destruct H as [H1 H2]. rewrite H1. cbn. rewrite (IH tu fu H2); [reflexivity|]. now inversion L.
   Qed.
 
+  Lemma strip_values_attach : forall ys tu fu, all_convertible tu fu = true -> length ys = length tu ->
+    strip_values fu (attach ys tu) = UOk (conv_list ys tu fu).
+  Proof.
+    induction ys as [|y ys IH]; intros [|a tu] [|b fu] H L; cbn in *; try discriminate; auto.
+    apply andb_true_iff in H. destruct H as [H1 H2]. fold (convertible a b) in H1. rewrite H1. cbn. rewrite (IH tu fu H2); [reflexivity|]. now inversion L.
+  Qed.
+
   Lemma all_num_map_num xs : all_num (map Num xs) = UOk xs.
   Proof. induction xs as [|x xs IH]; cbn; [reflexivity|]. now rewrite IH. Qed.
 
@@ -286,11 +310,12 @@ Section Units.
     exists ys, pixel_to_world_values w xs = UOk ys.
   Proof.
     intros w xs [Hf [Hb [H1 [H2 [H3 [H4 [L1 L2]]]]]]] L.
-    unfold pixel_to_world_values, call, add_units_input, remove_quantity_output, eval. cbn [twin fwd uses_quantity free_transform core fin fout].
+    unfold pixel_to_world_values, call, add_units_input, remove_quantity_output, eval, twin.
+    rewrite (free_transform_on (fwd w) _ _ Hf), (free_transform_on (bwd w) _ _ Hb). cbn [fwd uses_quantity core fin fout].
     rewrite Hf. rewrite (strip_attach _ _ _ H1 L). cbn [ubind].
     assert (Lc : length (conv_list xs (funit (fin w)) (tin (fwd w))) = length (tin (fwd w))).
     { rewrite conv_list_length; [rewrite L; now apply all_convertible_length|assumption|now apply all_convertible_length]. }
-    rewrite (get_values_attach _ _ _ H2 (L1 _ Lc)). rewrite all_num_map_num. cbn [ubind]. rewrite all_num_map_num.
+    rewrite (strip_values_attach _ _ _ H2 (L1 _ Lc)). rewrite all_num_map_num. cbn [ubind]. rewrite all_num_map_num.
     split; [reflexivity|eexists; reflexivity].
   Qed.
 
@@ -333,7 +358,8 @@ Section Units.
     exists xs, world_to_pixel_values w ws = UOk xs.
   Proof.
     intros w ws [Hf [Hb [H1 [H2 [H3 [H4 [L1 L2]]]]]]] Hok L Hne.
-    unfold world_to_pixel_values, add_units_input, remove_quantity_output. cbn [twin fwd bwd uses_quantity free_transform fin fout].
+    unfold world_to_pixel_values, add_units_input, remove_quantity_output, twin.
+    rewrite (free_transform_on (fwd w) _ _ Hf), (free_transform_on (bwd w) _ _ Hb). cbn [fwd bwd uses_quantity fin fout].
     rewrite Hf, Hb.
     assert (Hq : invert w (map as_warg (attach ws (funit (fout w)))) =
                  eval (bwd w) (attach ws (funit (fout w)))).
@@ -343,12 +369,11 @@ Section Units.
     fold as_warg. rewrite Hq. unfold eval. rewrite Hb. rewrite (strip_attach _ _ _ H3 L). cbn [ubind].
     assert (Lc : length (conv_list ws (funit (fout w)) (tin (bwd w))) = length (tin (bwd w))).
     { rewrite conv_list_length; [rewrite L; now apply all_convertible_length|assumption|now apply all_convertible_length]. }
-    rewrite (get_values_attach _ _ _ H4 (L2 _ Lc)).
+    rewrite (strip_values_attach _ _ _ H4 (L2 _ Lc)).
     (* twin side *)
     unfold invert. destruct ws as [|x ws]; [congruence|]. cbn [map as_warg is_numerical].
     change (WNum x :: map as_warg (map Num ws)) with (map as_warg (map Num (x :: ws))).
-    rewrite map_as_warg_num. unfold eval. cbn [uses_quantity core free_transform].
-    cbn [twin bwd uses_quantity free_transform core warg_value]. change (Num x :: map Num ws) with (map Num (x :: ws)).
+    rewrite map_as_warg_num. unfold eval. cbn [uses_quantity core bwd warg_value]. change (Num x :: map Num ws) with (map Num (x :: ws)).
     rewrite all_num_map_num. cbn [ubind]. rewrite all_num_map_num.
     split; [reflexivity|eexists; reflexivity].
   Qed.
@@ -469,7 +494,8 @@ Section Units.
     pixel_to_world w (map Num xs) = pixel_to_world (twin w) (map Num xs).
   Proof.
     intros w xs [Hf [Hb [H1 [H2 [H3 [H4 [L1 L2]]]]]]] H2d Hok L.
-    unfold pixel_to_world, sanitize_pixel_inputs, call, eval. cbn [twin fwd uses_quantity free_transform core fin fout].
+    unfold pixel_to_world, sanitize_pixel_inputs, call, eval, twin.
+    rewrite (free_transform_on (fwd w) _ _ Hf), (free_transform_on (bwd w) _ _ Hb). cbn [fwd uses_quantity core fin fout].
     rewrite Hf. rewrite (sanitize_units_num _ _ L), (sanitize_free_num _ _ L). cbn [ubind].
     rewrite (strip_attach _ _ _ H1 L), all_num_map_num. cbn [ubind].
     assert (Lc : length (conv_list xs (funit (fin w)) (tin (fwd w))) = length (tin (fwd w))).
